@@ -33,6 +33,9 @@ def load_config(name, features, report, repo=None):
     fx = allf[("chitchat", "rlib")]
     report.configs.append({"config": name, "factgen_s": round(secs, 1), "functions": len(fx.fns),
                            "adts": len(fx.adts), "crates": ["%s(%s)" % k for k in sorted(allf)]})
+    lost = [b for f in allf.values() for b in getattr(f, "stolen_bodies", [])]
+    if lost:
+        raise RuntimeError("factgen could not export %d bodies (MIR stolen before export): %s" % (len(lost), lost[:5]))
     if len(fx.fns) < FLOOR_FNS:
         raise RuntimeError("only %d bodies analysed in chitchat (floor %d)" % (len(fx.fns), FLOOR_FNS))
     return allf
